@@ -80,6 +80,13 @@ fn picture(size: (i32, i32), fonts: &[(usize, &BitFont)], ice: bool) -> Buffer {
 
 /// One (font, carrier) experiment; `other` is the second font of the XBin 512-character mode.
 fn run_font(out: &mut Out, case: &str, cls: &str, carrier: &str, f: &BitFont, other: Option<&BitFont>, slot: usize, variant: u64) {
+    run_font_after(out, case, cls, carrier, f, other, slot, variant, None)
+}
+
+/// `prior`: a font that already occupies the slot when `f` arrives (dcs: uploaded first through the same parser; xbin / adf / idf /
+/// icy: set first on the buffer that is saved).
+#[allow(clippy::too_many_arguments)]
+fn run_font_after(out: &mut Out, case: &str, cls: &str, carrier: &str, f: &BitFont, other: Option<&BitFont>, slot: usize, variant: u64, prior: Option<&BitFont>) {
     let h = f.size.height as u8;
     let input = font_value(f);
     let lossless = variant % 2 == 0;
@@ -102,6 +109,11 @@ fn run_font(out: &mut Out, case: &str, cls: &str, carrier: &str, f: &BitFont, ot
                         buf.is_terminal_buffer = true;
                         let mut caret = Caret::default();
                         let mut parser = ansi::Parser::default();
+                        if let Some(p) = prior {
+                            for ch in p.encode_as_ansi(slot).chars() {
+                                parser.print_char(&mut buf, 0, &mut caret, ch).map_err(|e| e.to_string())?;
+                            }
+                        }
                         for ch in seq.borrow().chars() {
                             parser.print_char(&mut buf, 0, &mut caret, ch).map_err(|e| e.to_string())?;
                         }
@@ -111,7 +123,8 @@ fn run_font(out: &mut Out, case: &str, cls: &str, carrier: &str, f: &BitFont, ot
         "xbin" | "adf" | "idf" => {
             let ext = match carrier { "xbin" => "xb", x => x };
             let size = if carrier == "adf" { (80, 1) } else { (variant as i32 % 3 + 1, 1) };
-            let buf = picture(size, &[(0, f)], carrier != "xbin" || variant % 4 < 2);
+            let fonts: Vec<(usize, &BitFont)> = prior.map(|p| (0, p)).into_iter().chain([(0, f)]).collect();
+            let buf = picture(size, &fonts, carrier != "xbin" || variant % 4 < 2);
             through(|| buf.to_bytes(ext, &opts).map(|b| { *cell.borrow_mut() = b.clone(); bytes_value(&b) }).map_err(|e| e.to_string()),
                     || Buffer::from_bytes(Path::new(&format!("case.{ext}")), true, &cell.borrow()).map(|b| b.get_font(0).cloned()).map_err(|e| e.to_string()))
         }
@@ -124,6 +137,7 @@ fn run_font(out: &mut Out, case: &str, cls: &str, carrier: &str, f: &BitFont, ot
         }
         _ => { // "icy"
             let mut buf = Buffer::new((2, 1));
+            if let Some(p) = prior { buf.set_font(slot, p.clone()); }
             buf.set_font(slot, f.clone());
             let mut o = SaveOptions::default();
             o.lossles_output = true;
@@ -381,6 +395,35 @@ pub fn c17(a: &Args) {
                 for carrier in ["dcs", "icy", "psf2", "u8"] {
                     if !supports(carrier, h as i32, 256) { continue; }
                     run_font(&mut out, &format!("{carrier}-{cls}-h{h}"), cls, carrier, &f, None, if carrier == "dcs" || carrier == "icy" { 5 } else { 0 }, h as u64);
+                    n_font += 1;
+                }
+            }
+        }
+    }
+
+    // (3b) slot history: the font arrives in a slot that another font already occupies (a host uploads fonts one after another;
+    //      an editor replaces the font of a slot).  Classes of (prior, font) pairs: blank fonts of different heights, the same
+    //      glyph bytes behind leading blank glyphs at another height, a built-in font with one glyph edited in place.
+    if only.is_empty() || only == "history" {
+        let mut r = rng(seed, 19);
+        let rand8 = random_font(&mut r, "rand8", 8, 256);
+        let rand16 = random_font(&mut r, "rand16", 16, 256);
+        let zp16 = { let mut d = vec![0u8; 128 * 16]; d.extend(rand8.convert_to_u8_data()); BitFont::create_8("zero-prefixed", 8, 16, &d) };
+        let mut edited = BitFont::default();
+        if let Some(g) = edited.get_glyph_mut('A') { g.data[0] ^= 0xFF; }
+        // the checksum is a cache the caller must refresh after editing glyphs in place (writers recognise built-in fonts by it)
+        edited.calculate_checksum();
+        let fonts: Vec<(&str, BitFont)> = vec![
+            ("blank8", BitFont::create_8("blank8", 8, 8, &vec![0u8; 256 * 8])), ("blank14", BitFont::create_8("blank14", 8, 14, &vec![0u8; 256 * 14])),
+            ("blank16", BitFont::create_8("blank16", 8, 16, &vec![0u8; 256 * 16])), ("rand8", rand8), ("rand16", rand16), ("zero-prefixed16", zp16),
+            ("default", BitFont::default()), ("edited-default", edited)];
+        for (pn, p) in &fonts {
+            for (fname, f) in &fonts {
+                if pn == fname { continue; }
+                for carrier in ["dcs", "icy", "xbin", "adf", "idf"] {
+                    if !supports(carrier, f.size.height, 256) { continue; }
+                    let slot = if carrier == "dcs" || carrier == "icy" { [0usize, 1, 42][r.gen_range(0..3)] } else { 0 };
+                    run_font_after(&mut out, &format!("{carrier}-{fname}-after-{pn}"), "history", carrier, f, None, slot, 0, Some(p));
                     n_font += 1;
                 }
             }
